@@ -28,6 +28,18 @@ InternalFailures(e, ast) ==
   IF "internal" \notin DOMAIN e THEN <<>>
   ELSE LET bad == FilterSeq(e.internal, LAMBDA ie : ~InternalOK(ie, e, ast)) IN [n \in 1..Len(bad) |-> bad[n].ev]
 
+\* ---- the AST built by the implementation's parser = the recogniser's AST (numbers compared by value) ----
+NormNum(v) == IF v.t = "num" THEN JNum(NumNorm(v)[1], NumNorm(v)[2], v.f) ELSE v
+RECURSIVE NormSegs(_), NormLx(_), NormExpr(_)
+NormSegs(segs) == [n \in 1..Len(segs) |-> [desc |-> segs[n].desc, sels |-> [m \in 1..Len(segs[n].sels) |->
+                     LET s == segs[n].sels[m] IN IF s.k = "filter" THEN [s EXCEPT !.f = <<NormLx(s.f[1])>>] ELSE s]]]
+NormExpr(e) == CASE e.k = "lit" -> [e EXCEPT !.v = NormNum(e.v)]
+                 [] e.k = "q"   -> [e EXCEPT !.segs = NormSegs(e.segs)]
+                 [] e.k = "fn"  -> [e EXCEPT !.args = [n \in 1..Len(e.args) |-> NormExpr(e.args[n])]]
+                 [] e.k = "lx"  -> [e EXCEPT !.lx = <<NormLx(e.lx[1])>>]
+NormLx(x) == [x EXCEPT !.xs = [n \in 1..Len(x.xs) |-> NormLx(x.xs[n])], !.es = [n \in 1..Len(x.es) |-> NormExpr(x.es[n])]]
+AstOK(e, ast) == "ast" \notin DOMAIN e \/ NormSegs(e.ast) = NormSegs(ast)
+
 NoJ == [ok |-> TRUE, verdict |-> "", aspects |-> <<>>, sm |-> FALSE, expect |-> <<>>, expect_paths |-> <<>>]
 Judge(e) ==
   LET v == Verdict(e.q) IN
@@ -43,7 +55,7 @@ Judge(e) ==
         pathsOK == Len(e.paths) = Len(e.res) /\ \A n \in 1..Len(e.res) : e.paths[n] = ep[n]
         intl == InternalFailures(e, ast)
         asp == (IF nodesOK THEN <<>> ELSE <<"nodes">>) \o (IF orderOK THEN <<>> ELSE <<"order">>)
-               \o (IF pathsOK THEN <<>> ELSE <<"paths">>) \o intl
+               \o (IF pathsOK THEN <<>> ELSE <<"paths">>) \o intl \o (IF AstOK(e, ast) THEN <<>> ELSE <<"ast">>)
     IN [ok |-> asp = <<>>, verdict |-> v, aspects |-> asp,
         sm |-> e.inside /\ e.res = DenoteSM(ast, e.doc), expect |-> exp, expect_paths |-> ep]
 
